@@ -10,10 +10,12 @@ namespace FileD.DrvProc
 open FileD FileD.Proc Tok
 open FileD.StreamProc (Op)
 
-/-- chain token list: v<i> scripted verdict action, j<f> real join on field m<f>, p<i> real split -/
+/-- chain token list: v<i> scripted verdict action, j<f> real join on field m<f>, p<i> real split;
+    suffix `:c` = the action has the match condition `k<position> = "y"` -/
 def parseChain (s : String) : Option (List Act) :=
   if s = "-" then some [] else
-  (s.splitOn ",").mapM fun t =>
+  (s.splitOn ",").mapM fun t0 =>
+    let t := (t0.splitOn ":").headD ""
     let n := (t.drop 1).toNat?
     if t.startsWith "v" then n.map Act.plain
     else if t.startsWith "j" then n.map Act.holder
@@ -37,8 +39,15 @@ def clsOf (v : Option String) : JCls :=
   | none => .absent
   | some s => if s.startsWith "S" then .start else if s.startsWith "C" then .cont else .other
 
-def specOf (json : String) (seq : Nat) : EvSpec :=
+/-- chain positions that carry a match condition -/
+def condPositions (s : String) : List Nat :=
+  if s = "-" then [] else
+  ((s.splitOn ",").zipIdx.filter (fun p => p.1.endsWith ":c")).map (·.2)
+
+def specOf (conds : List Nat) (json : String) (seq : Nat) : EvSpec :=
   { seq := seq,
+    skip := conds.filter fun p => strField json s!"k{p}" != some "y",
+    kidSkip := conds,
     vs := ((strField json "v").getD "").toList.map verdictOf,
     js := (List.range 4).map fun f => clsOf (strField json s!"m{f}"),
     kids := (json.splitOn "{\"c\":").length - 1 }
@@ -73,7 +82,7 @@ inductive Seen
 deriving Repr
 
 /-- processor-side tokens of the trace -/
-def seenOf (specs : List (Nat × Nat × String)) (seqs : List (Nat × Nat)) (tok : String) : Option (Option Seen) :=
+def seenOf (conds : List Nat) (specs : List (Nat × Nat × String)) (seqs : List (Nat × Nat)) (tok : String) : Option (Option Seen) :=
   let ev (o : String) : Option (Nat × Nat) := do
     let off ← nat? o
     let i ← specs.find? (·.1 == off)
@@ -83,7 +92,7 @@ def seenOf (specs : List (Nat × Nat × String)) (seqs : List (Nat × Nat)) (tok
   | ["get", o, q] => do
     let off ← nat? o; let sq ← nat? q
     let i ← specs.find? (·.1 == off)
-    pure (some (.item i.2.1 (.ev (specOf i.2.2 sq)) (.get sq)))
+    pure (some (.item i.2.1 (.ev (specOf conds i.2.2 sq)) (.get sq)))
   | ["gtm", sk] => do pure (some (.item (← streamTok sk) .tmo .getTimeout))
   | ["lv", sk] => do pure (some (.item (← streamTok sk) .gap .leave))
   | ["out", o, _] => pure ((ev o).map fun p => .op p.1 (.out p.2))        -- children carry no stream offset
@@ -108,7 +117,7 @@ def firstDiff : List Op → List Op → Nat → Option String
 def compare (chain : String) (nev : Nat) (evToks : List String) (trace : List String) (seqs : List (Nat × Nat)) : Option String :=
   match parseChain chain, parseSpecs nev evToks [] with
   | some acts, some specs =>
-    match trace.mapM (seenOf specs seqs) with
+    match trace.mapM (seenOf (condPositions chain) specs seqs) with
     | none => some "proc-bad-trace"
     | some seen =>
       let seen := seen.filterMap id
